@@ -912,10 +912,12 @@ impl MemoryLoc {
                 let mut off = 0;
                 macro_rules! mem_cpy_loop {
                     ($width:expr) => {
-                        while (off + $width) <= (ty.stride() as i32 / $width) * $width {
+                        // only the bytes of the value itself get set (the bytes up to its stride
+                        // might already belong to something else), `$width` bytes at a time
+                        while (off + $width) <= (ty.size() as i32 / $width) * $width {
                             let val = builder.ins().iconst(
-                                cranelift::codegen::ir::Type::int_with_byte_size(8).unwrap(),
-                                val as i64,
+                                cranelift::codegen::ir::Type::int_with_byte_size($width).unwrap(),
+                                i64::from_ne_bytes([val; 8]) & (u64::MAX >> (64 - 8 * $width)) as i64,
                             );
                             builder
                                 .ins()
